@@ -99,3 +99,31 @@ theorem pad_eq_padNat (pos k : Nat) (hk : k ≤ 64) : pad pos (2 ^ k) = padNat p
     rw [this, Nat.add_mul_mod_self_left]
 
 end Eps
+
+namespace Eps
+
+theorem leVal_lt (b : B) : leVal b < 2 ^ (8 * b.length) := by
+  induction b with
+  | nil => simp [leVal]
+  | cons x xs ih =>
+    simp only [leVal, List.length_cons]
+    have hx : x.toNat < 256 := x.toNat_lt
+    have : 2 ^ (8 * (xs.length + 1)) = 256 * 2 ^ (8 * xs.length) := by
+      rw [Nat.mul_add, Nat.pow_add]; simp [Nat.mul_comm]
+    rw [this]
+    have h1 : leVal xs + 1 ≤ 2 ^ (8 * xs.length) := ih
+    have h2 : 256 * (leVal xs + 1) ≤ 256 * 2 ^ (8 * xs.length) := Nat.mul_le_mul_left 256 h1
+    omega
+
+theorem leBytes_leVal (b : B) : leBytes b.length (leVal b) = b := by
+  induction b with
+  | nil => simp [leBytes]
+  | cons x xs ih =>
+    simp only [List.length_cons, leBytes, leVal]
+    have hx : x.toNat < 256 := x.toNat_lt
+    have h1 : (x.toNat + 256 * leVal xs) % 256 = x.toNat := by omega
+    have h2 : (x.toNat + 256 * leVal xs) / 256 = leVal xs := by omega
+    rw [h1, h2, ih]
+    simp
+
+end Eps
